@@ -17,6 +17,9 @@ from ..paths import fmt, ptr_parts, strip_casts
 UNIT = "librfn/mlog.c"
 
 
+HEAD_META = {}      # id(module) -> {"bits": width of log.head, "T": inductive bound head < T found for vmlog}
+
+
 def log_info(m):
     g = m.globals.get("log")
     if not g or not g.get("di_ty"):
@@ -29,6 +32,7 @@ def log_info(m):
         raise AnalysisError("log.line is not an array")
     n = arr[1]
     esz = leaves["line"][1] // n
+    HEAD_META[id(m)] = {"bits": leaves["head"][1] * 8, "T": None}
     return leaves["head"][0], leaves["line"][0], n, esz
 
 
@@ -316,15 +320,17 @@ def check_vmlog(chk, m, info):
     from ..domains.bvexec import expr_bv, Top
     B = BDD()
     bv = BV(B)
-    hv = bv.inputs(0, 32)
+    W = HEAD_META[id(m)]["bits"]
+    hv = bv.inputs(0, W)
 
     def atom(x):
         if x[0] == "ld" and is_head(x[1], info):
             return hv
         return None
-    inv = bv.ult(hv, bv.const(1 << 31, 32))
+    inv = 1
     newh = None
     covered = 0
+    cands = set()
     try:
         for p in ps:
             if paths.is_assert_fail_path(p):
@@ -343,21 +349,44 @@ def check_vmlog(chk, m, info):
                 for x in v:
                     bit = B.OR(bit, x)
                 pc = B.AND(pc, bit if taken else B.NOT(bit))
-            val = bv.trunc(expr_bv(hs[-1].val, bv, atom), 32)
+            val = expr_bv(hs[-1].val, bv, atom)
+            val = bv.trunc(val, W) if len(val) >= W else bv.zext(val, W)
             newh = val if newh is None else bv.mux(pc, val, newh)
             covered = B.OR(covered, pc)
+            for c, taken, inst in p.conds:
+                for x in paths.subexprs(c):
+                    if x[0] == "c" and 0 < x[2] <= (1 << W):
+                        cands.add(x[2])
     except Top as t:
         chk.unknown("L3.fold", "vmlog", "counter update outside the bit-vector fragment: %s" % t, fn.loc)
         return
     if newh is None:
         return
     loc = fn.loc
+    # the inductive bound of the counter: the smallest T among the constants the counter is compared with (and 2^31, 2^W)
+    # such that head < T holds after mlog_clear (0) and is preserved by vmlog
+    T = None
+    for cand in sorted(cands | {min(1 << 31, 1 << W), 1 << W}):
+        below = bv.ult(bv.zext(hv, W + 1), bv.const(cand, W + 1))
+        if B.AND(below, B.NOT(bv.ult(bv.zext(newh, W + 1), bv.const(cand, W + 1)))) == 0:
+            T = cand
+            break
+    HEAD_META[id(m)]["T"] = T
+    inv = bv.ult(bv.zext(hv, W + 1), bv.const(T, W + 1))
+    hv32, newh32 = hv, newh
+    if W < 32:
+        hv, newh = bv.zext(hv, 32), bv.zext(newh, 32)
+    elif W > 32:
+        chk.unknown("L3.fold", "vmlog", "a %d-bit counter is not modelled" % W, fn.loc)
+        return
 
     def show(f):
         a = B.sat_one(f) or {}
         return "head == %d (0x%x)" % ((sum((1 << i) for i in range(32) if a.get(i)),) * 2)
     gap = B.AND(inv, B.NOT(covered))
     h1 = bv.add(hv, bv.const(1, 32))
+    # (h1 is the mathematical successor: for a member narrower than 32 bits the addition above cannot wrap, and the stored
+    # value newh - which the member truncates - is compared with it)
     small = bv.ult(h1, bv.const(n, 32))
     bad = B.OR(gap, B.AND(B.AND(inv, small), B.NOT(bv.eq(newh, h1))))
     chk.ob("L2.increment", "vmlog", bad == 0,
@@ -376,10 +405,12 @@ def check_vmlog(chk, m, info):
     chk.ob("L3.fold-stays-wrapped", "vmlog", bad == 0,
            "once %d messages have been logged the counter never drops below %d again" % (n, n) if bad == 0 else
            "the counter drops below %d for %s: the log forgets that it has wrapped" % (n, show(bad)), loc, fn.name)
-    bad = B.AND(inv, B.NOT(bv.ult(newh, bv.const(1 << 31, 32))))
-    chk.ob("L3.fold-threshold", "vmlog", bad == 0,
-           "head < 2^31 is preserved (so a negative int index, converted to unsigned, is >= head and is rejected)" if bad == 0 else
-           "the counter can reach 2^31: %s" % show(bad), loc, fn.name)
+    ok = T is not None and T <= (1 << 31)
+    chk.ob("L3.fold-threshold", "vmlog", ok,
+           "head < %d is an inductive bound of the %d-bit counter (holds after mlog_clear, preserved by vmlog) and is at most 2^31, so a "
+           "negative int index, converted to unsigned, is >= head and is rejected" % (T, W) if ok else
+           "no bound of the counter below 2^31 is preserved by vmlog: the counter can reach 2^31 and a negative index is then accepted",
+           loc, fn.name)
 
 
 def check_get_line_bdd(chk, m, info):
@@ -396,7 +427,12 @@ def check_get_line_bdd(chk, m, info):
     B = BDD()
     bv = BV(B)
     nv = [B.var(2 * i) for i in range(32)]
-    hv = [B.var(2 * i + 1) for i in range(32)]
+    W = HEAD_META[id(m)]["bits"]
+    T = HEAD_META[id(m)]["T"] or min(1 << 31, 1 << W)
+    if W > 32:
+        return False
+    hw = [B.var(2 * i + 1) for i in range(W)]
+    hv = bv.zext(hw, 32) if W < 32 else hw
     abits = paths.int_bits_of(fn.args[0].ty) if fn.args else None
     if abits != 32:
         return False
@@ -405,9 +441,9 @@ def check_get_line_bdd(chk, m, info):
         if x == ("arg", 0):
             return nv
         if x[0] == "ld" and is_head(x[1], info):
-            return hv
+            return hw
         return None
-    dom = bv.ult(hv, bv.const(1 << 31, 32))
+    dom = bv.ult(bv.zext(hv, 33), bv.const(T, 33))
     valid = B.AND(bv.ult(nv, hv), bv.ult(nv, bv.const(N, 32)))
     wrapped = B.NOT(bv.ult(hv, bv.const(N, 32)))
     want_slot = bv.AND(bv.add(nv, bv.mux(wrapped, hv, bv.const(0, 32))), bv.const(N - 1, 32))
@@ -609,7 +645,7 @@ def check_nice_clear(chk, m, info):
     chk.note_fn(fc)
     for p in paths.enumerate_paths(fc, m):
         st = [e for e in p.events if e.kind == "store" and is_head(e.ptr, info)]
-        chk.ob("L6.clear", "mlog_clear", len(st) == 1 and st[0].val == ("c", 32, 0), "mlog_clear stores 0 to head", fc.loc, fc.name)
+        chk.ob("L6.clear", "mlog_clear", len(st) == 1 and st[0].val[0] == "c" and st[0].val[2] == 0, "mlog_clear stores 0 to head", fc.loc, fc.name)
         # "since the last mlog_clear": every bookkeeping field of the log object that any function consults must be back at
         # its initial value (0, the object is static) after mlog_clear - a flag or cached count that survives the clear makes
         # the readers see messages from before it
